@@ -13,6 +13,8 @@ Profiles (one per property that uses this oracle):
   eval    plain + evaluate_function (functions of the story with arguments, unknown names)  -> C16
   observe plain + observe_variable / remove_variable_observer; the notifications of every call are compared   -> C11
   slices  continues replaced by time-limited continues (step budgets), guarded calls in between               -> C08
+  externs plain play, line by line, of programs whose external functions are bound (look-ahead safe or not):
+          the calls the host receives during every continue - function, arguments, order, and WHEN - are compared     -> C12
 A mismatch is attributed to the property of the profile only from the first call of the profile's own kind on;
 earlier ones are handed to C01 (plain play), whose check runs the plain profile itself."""
 import json
@@ -25,9 +27,9 @@ import gen_ast
 import lib
 
 SPECIAL = {"save": {"save", "load"}, "flows": {"switch_flow", "switch_default", "remove_flow"}, "reset": {"reset"},
-           "eval": {"eval_fn"}, "observe": {"observe", "remove_observer"}, "slices": {"cont_async"}, "refuse": None, "plain": None}
+           "eval": {"eval_fn"}, "observe": {"observe", "remove_observer"}, "slices": {"cont_async"}, "refuse": None, "plain": None, "externs": None}
 OWNER = {"save": "C02", "flows": "C10", "reset": "C17", "refuse": "C09", "plain": "C01", "eval": "C16", "observe": "C11",
-         "slices": "C08"}
+         "slices": "C08", "externs": "C12"}
 
 
 def chars(s):
@@ -55,6 +57,8 @@ def history(rnd, prog, profile, length):
         for v in gvars:
             ops.append({"op": "observe", "obs": 1, "var": v})
     names = list(weights)
+    if profile == "externs":
+        weights.update(cont=14, choose=5, set_var=0.5, choose_path=0.7)
     if profile == "slices":
         weights.update(cont_async=12, cont=3, choose=4, switch_flow=0.7, reset=0.3, choose_path=1.5)
     names = list(weights)
@@ -71,7 +75,7 @@ def history(rnd, prog, profile, length):
         k = rnd.choices(names, [weights[n] for n in names])[0]
         if k == "cont":
             # mostly to the end of the turn (as many conts as the story allows), sometimes single lines
-            ops += [{"op": "turn"}] if rnd.random() < 0.55 else [{"op": "cont"}] * rnd.choice([1, 1, 2])
+            ops += [{"op": "turn"}] if rnd.random() < (0.55 if profile != "externs" else 0.8) else [{"op": "cont"}] * rnd.choice([1, 1, 2])
         elif k == "choose":
             if rnd.random() > bad:
                 ops.append({"op": "choose", "i": rnd.randrange(1 << 16), "mod": True})     # a valid index if anything is on offer
@@ -149,7 +153,7 @@ def run(profile, tier, seed, nprog=None, nhist=None, length=None, name=None):
     wd = lib.workdir("HOST-" + profile)
     lib.build("debug")
     rnd = random.Random("%s/%s" % (profile, seed))
-    focus = {"save": "threads", "observe": "assign"}.get(profile)
+    focus = {"save": "threads", "observe": "assign", "externs": "externs"}.get(profile)
     progs = [gen_ast.generate(seed * 7000003 + i + 31 * sum(map(ord, profile)), c01.DEFAULT, knots=2 + i % 3,
                               focus=focus if i % 2 else None) for i in range(nprog)]
     scs, meta = [], {}
@@ -158,6 +162,8 @@ def run(profile, tier, seed, nprog=None, nhist=None, length=None, name=None):
             ops = history(rnd, p, profile, length)
             key = "%s-%d/%d" % (profile, p["seed"], hi)
             meta[key] = (p, ops)
+            # (external functions are bound before the first call of the history)
+            ops = ops[:1] + p.get("binds", []) + ops[1:]
             scs.append({"case": key, "programs": [{"ink": p["ink"]}], "seed": 7, "fuel": 20000,
                         "obs": {"save": True, "vars": True, "visits": False}, "script": ops})
     recs = lib.run_inkdrive(scs, wd, name=name, timeout=1800)
@@ -170,9 +176,9 @@ def run(profile, tier, seed, nprog=None, nhist=None, length=None, name=None):
             skipped["compile_errors"] += 1
             continue
         flows = set(p["prog"]["knots"])
-        out, bad = [], False
+        out, bad, carried = [], False, []
         for r in rs:
-            if r.get("n", 0) <= 0 or r.get("op") == "new":
+            if r.get("n", 0) <= 0 or r.get("op") in ("new", "bind"):
                 continue
             o = r.get("obs") or {}
             if r.get("res") in ("panic", "skipped") or "obs_panic" in r or o.get("errors"):
@@ -193,10 +199,19 @@ def run(profile, tier, seed, nprog=None, nhist=None, length=None, name=None):
             if ret is not None and c01.value_json(ret) is None:
                 bad = True      # (a value outside the model's types)
                 break
+            # external calls of unfinished slices belong to the continue that the finishing slice completes
+            mine = c01.ext_calls(r)
+            if op["op"] == "cont_async" and not r.get("finished", True) and r.get("res") == "ok":
+                carried, calls = carried + mine, []
+            elif op["op"] in ("cont", "cont_async") and r.get("res") == "ok":
+                carried, calls = [], carried + mine
+            else:
+                calls = mine
             notes = [{"o": c["o"], "var": c["var"], "val": c01.value_json(c["val"]) or {"t": "other"}}
                      for c in (r.get("cb") or []) if c.get("k") == "obs"]
             out.append({"op": op["op"], "i": r.get("chosen", op.get("obs", op.get("i", 0))),
                         "name": op.get("name", op.get("path", op.get("var", ""))), "notes": notes,
+                        "calls": calls,
                         "finished": bool(r.get("finished", True)),
                         "args": op.get("args", []), "val": c01.value_json(ret) if ret is not None else {"t": "void"},
                         "ftext": chars((r.get("val") or {}).get("text", "")) if op["op"] == "eval_fn" and isinstance(r.get("val"), dict) else [],
@@ -247,7 +262,7 @@ def run(profile, tier, seed, nprog=None, nhist=None, length=None, name=None):
                            notes=c["ops"][m["op_index"] - 1]["notes"], finished=c["ops"][m["op_index"] - 1]["finished"])
         before = c["ops"][:m["op_index"]]
         if special is None:
-            mine = profile == "plain" or any(o["res"] == "err" for o in before)
+            mine = profile in ("plain", "externs") or any(o["res"] == "err" for o in before)
         else:
             # (for the reset profile a path jump WITH call-stack reset is a call of the profile's kind, too)
             mine = any(o["op"] in special or (profile == "reset" and o["op"] == "choose_path" and o["reset"]) for o in before)
